@@ -50,7 +50,7 @@ def run(cx):
     cx.rule("C04.R1", "oneway guard dominates every protocol write: each Write::* on Call.writer is reachable only through the false edge of an is_oneway() test whose true edge returns without writing; is_oneway() reads exactly Request.oneway == Some(true)")
     cx.rule("C04.R2", "client oneway path: MethodCall::oneway only sends; in send() the reader is taken only on the non-oneway edge, Request.oneway=Some(true) is set before serialisation, and the writer is handed back to the connection")
     r1(cx)
-    r1_flag(cx)
+    r1_flag(cx, only=("is_oneway",))
     r1_ctor(cx)
     r2(cx)
 
@@ -101,8 +101,9 @@ def r1(cx):
                      note_ok="known writer/constructor")
 
 
-def r1_flag(cx):
+def r1_flag(cx, rule="C04.R1", only=None):
     for fn, field in (("is_oneway", "oneway"), ("wants_more", "more")):
+        if only and fn not in only: continue
         body = cx.mir.one("varlink", "<Call<'_> as CallTrait>::%s" % fn)
         cx.saw(body)
         cfg = Cfg(body); du = DefUse(body)
@@ -133,7 +134,7 @@ def r1_flag(cx):
             if not ok: why.append("`true` is returned without the three tests request=Some, %s=Some, value=true (edges %s)" % (field, labels))
         elif len(trues) != 1:
             why.append("%d `true` results" % len(trues))
-        cx.check(ok, "C04.R1" , "varlink:Call::%s:flag" % fn, body.sp, "; ".join(why), note_ok="true iff request.%s == Some(true)" % field)
+        cx.check(ok, rule, "varlink:Call::%s:flag" % fn, body.sp, "; ".join(why), note_ok="true iff request.%s == Some(true)" % field)
 
 
 def r1_ctor(cx):
